@@ -180,7 +180,13 @@ def system_cases(ctx, n, thorough=False):
         fmt = rng.choice(["fasta", "msf", "clu"])
         th = rng.choice([1, 1, 2, 4, 7, 16])
         c = Case(recs, type_, pens[0], pens[1], pens[2], th, fmt, api if len(recs) < 90 else "file", evlog=(len(recs) <= 60))
-        if c.api == "file" and rng.random() < 0.3 and all(s for _, s in recs):
+        if c.api == "file" and rng.random() < 0.12 and all(s for _, s in recs):
+            # FASTA headers with free-text descriptions that mention other formats and tools (none of them is a format signature by itself)
+            words = ["re-aligned from a CLUSTALW run", "CLUSTAL-Omega 1.2.4 output", "exported from MSF format", "PileUp of 12", "Clustal consensus", "see MSF file",
+                     "!!AA family 7", "multiple alignment seed", "kalign 3 reference", "GCG Check 1234"]
+            recs = [("%s %s" % (nm, rng.choice(words)) if rng.random() < 0.6 else nm, sq) for nm, sq in recs]
+            c = Case(recs, type_, pens[0], pens[1], pens[2], th, "fasta", "file", evlog=False, tag="described headers")
+        elif c.api == "file" and rng.random() < 0.3 and all(s for _, s in recs):
             # the same records in an untidy FASTA file: stray gap glyphs that do not form an alignment (rows of unequal length), a trailing
             # stop-codon '*', or an aligned block followed by unaligned records -- kalign announces it will drop the gaps and align
             style = rng.choice(["stray", "star", "mixed", "plain"])
